@@ -1,24 +1,26 @@
 (* C19 property theorems, enforcement part: statements + `exact lemma` only.
    "Every blocklist and allowlist entry of an accepted configuration is enforced": for every kind of
-   entry (blocklist subnet, allowlist subnet, domain pattern, phantom blocklist subnet) and every covert
-   string, whatever kind of host it names -- parse_ip (net.ParseIP as a predicate) and resolve
-   (net.ResolveIPAddr) are universally quantified, so names, IPv4/IPv6 literals, zoned and IPv4-mapped
-   literals are all covered. *)
+   entry (blocklist subnet, implicit interface subnet of covert_blocklist_public_addrs, allowlist subnet,
+   domain pattern, phantom blocklist subnet) and every covert string, whatever kind of host it names --
+   parse_ip (net.ParseIP as a predicate) and resolve (net.ResolveIPAddr) are universally quantified, so
+   names, IPv4/IPv6 literals, zoned and IPv4-mapped literals are all covered.  ifaces: the interface
+   subnets of the machine at load time (external). *)
 From CJ Require Import Common.Base C19.ModelEnforce C19.ProofsEnforce C19.ProofsRegex.
 
-(* an accepted configuration's policy is, list by list and in order, exactly the written entries:
-   none dropped, none added *)
+(* an accepted configuration's policy is, list by list and in order, exactly the written entries (the
+   interface subnets behind the written blocklist when covert_blocklist_public_addrs is on): none dropped,
+   none added *)
 Theorem C19_written_entries_in_force :
-  forall l p, load (ELists l) = Some p <->
-    l_block l = map NOk (e_block p) /\ l_allow l = map NOk (e_allow p) /\
+  forall ifaces l p, load ifaces (ELists l) = Some p <->
+    (exists b, l_block l = map NOk b /\ e_block p = b ++ implicit_block ifaces l) /\ l_allow l = map NOk (e_allow p) /\
     l_phantom l = map NOk (e_phantom p) /\ l_domains l = map POk (e_domains p).
-Proof. exact parse_lists_exact. Qed.
+Proof. exact load_exact. Qed.
 Print Assumptions C19_written_entries_in_force.
 
 (* one entry net.ParseCIDR / regexp.Compile rejects, in any of the four lists, at any position: the load fails *)
 Theorem C19_unparsable_entry_fails_load :
-  forall l, In NBad (l_block l) \/ In NBad (l_allow l) \/ In NBad (l_phantom l) \/ In PBad (l_domains l) ->
-    load (ELists l) = None.
+  forall ifaces l, In NBad (l_block l) \/ In NBad (l_allow l) \/ In NBad (l_phantom l) \/ In PBad (l_domains l) ->
+    load ifaces (ELists l) = None.
 Proof. exact bad_entry_fails. Qed.
 Print Assumptions C19_unparsable_entry_fails_load.
 
@@ -27,53 +29,34 @@ Print Assumptions C19_unparsable_entry_fails_load.
    or resolve: the host may be a name or an address literal of any spelling, inside the allowlist or
    not covered by any subnet. *)
 Theorem C19_pattern_entry_enforced_on_every_host :
-  forall parse_ip resolve l p pat s host port,
-    load (ELists l) = Some p -> In (POk pat) (l_domains l) ->
+  forall parse_ip resolve ifaces l p pat s host port,
+    load ifaces (ELists l) = Some p -> In (POk pat) (l_domains l) ->
     split_host_port s = Some (host, port) -> pat_match pat host = true ->
     decide parse_ip resolve p s = false.
-Proof.
-  intros parse_ip resolve l p pat s host port L I S M.
-  apply (pattern_refuses parse_ip resolve p s host port pat S); [|exact M].
-  apply (written_in_force l p L). exact I.
-Qed.
+Proof. exact pattern_entry_enforced. Qed.
 Print Assumptions C19_pattern_entry_enforced_on_every_host.
 
 (* ... in particular for an address literal that an allowlist entry covers: the allowlist overrides the
    subnet blocklist, so the pattern is the only entry that can carve the exception out *)
 Theorem C19_pattern_entry_enforced_on_allowlisted_literal :
-  forall parse_ip resolve l p pat n s host port ip,
-    load (ELists l) = Some p -> In (POk pat) (l_domains l) -> In (NOk n) (l_allow l) ->
+  forall parse_ip resolve ifaces l p pat n s host port ip,
+    load ifaces (ELists l) = Some p -> In (POk pat) (l_domains l) -> In (NOk n) (l_allow l) ->
     split_host_port s = Some (host, port) -> parse_ip host = true -> resolve host = RAddr ip false ->
     contains n ip = true -> pat_match pat host = true ->
     decide parse_ip resolve p s = false.
-Proof.
-  intros parse_ip resolve l p pat n s host port ip L I _ S _ _ _ M.
-  apply (pattern_refuses parse_ip resolve p s host port pat S); [|exact M].
-  apply (written_in_force l p L). exact I.
-Qed.
+Proof. exact pattern_entry_enforced_allowlisted_literal. Qed.
 Print Assumptions C19_pattern_entry_enforced_on_allowlisted_literal.
 
-(* SUBNETS: with no allowlist a blocklist entry containing the host's address refuses it; with an
-   allowlist an address that no allowlist entry contains is refused *)
+(* SUBNETS: with no allowlist a blocklist entry (written, or an interface subnet under
+   covert_blocklist_public_addrs) containing the host's address refuses it; with an allowlist an address
+   that no allowlist entry contains is refused *)
 Theorem C19_subnet_entries_enforced :
-  forall parse_ip resolve l p s host port ip z,
-    load (ELists l) = Some p -> split_host_port s = Some (host, port) -> resolve host = RAddr ip z ->
-    (l_allow l = [] -> forall n, In (NOk n) (l_block l) -> contains n ip = true -> decide parse_ip resolve p s = false) /\
+  forall parse_ip resolve ifaces l p s host port ip z,
+    load ifaces (ELists l) = Some p -> split_host_port s = Some (host, port) -> resolve host = RAddr ip z ->
+    (l_allow l = [] -> forall n, In (NOk n) (l_block l) \/ (l_public l = true /\ In n ifaces) -> contains n ip = true ->
+       decide parse_ip resolve p s = false) /\
     (l_allow l <> [] -> (forall n, In (NOk n) (l_allow l) -> contains n ip = false) -> decide parse_ip resolve p s = false).
-Proof.
-  intros parse_ip resolve l p s host port ip z L S R.
-  pose proof (written_in_force l p L) as (Wb & Wa & _ & _).
-  pose proof (proj1 (parse_lists_exact l p) L) as (_ & Ea & _ & _).
-  split.
-  - intros A n I C. apply (subnet_refuses parse_ip resolve p s host port ip z S R).
-    apply addr_blocked_iff. right. split.
-    + rewrite A in Ea. destruct (e_allow p); [reflexivity|discriminate].
-    + exists n. split; [apply Wb; exact I|exact C].
-  - intros A H. apply (subnet_refuses parse_ip resolve p s host port ip z S R).
-    apply addr_blocked_iff. left. split.
-    + intro E. apply A. rewrite Ea, E. reflexivity.
-    + intros n I. apply H. apply Wa. exact I.
-Qed.
+Proof. exact subnet_entries_enforced. Qed.
 Print Assumptions C19_subnet_entries_enforced.
 
 (* the admitted coverts, exactly: a covert is admitted iff it is a usable address (host:port with a
@@ -90,14 +73,9 @@ Print Assumptions C19_admitted_iff_no_entry_forbids.
 
 (* PHANTOM BLOCKLIST: a phantom address is refused iff a written entry contains it *)
 Theorem C19_phantom_entries_enforced :
-  forall l p ip, load (ELists l) = Some p ->
+  forall ifaces l p ip, load ifaces (ELists l) = Some p ->
     (phantom_blocked p ip = true <-> exists n, In (NOk n) (l_phantom l) /\ contains n ip = true).
-Proof.
-  intros l p ip L. pose proof (written_in_force l p L) as (_ & _ & Wp & _).
-  unfold phantom_blocked, in_nets. rewrite existsb_exists. split.
-  - intros (n & I & C). exists n. split; [apply Wp; exact I|exact C].
-  - intros (n & I & C). exists n. split; [apply Wp; exact I|exact C].
-Qed.
+Proof. exact phantom_entries_enforced. Qed.
 Print Assumptions C19_phantom_entries_enforced.
 
 (* the IPv4-mapped spelling of an address (::ffff:a.b.c.d) gets the decision of the address, from
@@ -106,20 +84,17 @@ Theorem C19_mapped_spelling_same_decision :
   forall p a, len_is 4 a = true ->
     addr_blocked p (v4in6_prefix ++ a) = addr_blocked p a /\
     phantom_blocked p (v4in6_prefix ++ a) = phantom_blocked p a.
-Proof. intros p a H. split; [exact (addr_blocked_mapped p a H)|exact (in_nets_mapped (e_phantom p) a H)]. Qed.
+Proof. exact mapped_spelling_same. Qed.
 Print Assumptions C19_mapped_spelling_same_decision.
 
 (* reload: after any sequence of reloads the policy that decides is one that loaded -- the last one --
    or the initial one; a file that does not load changes no decision *)
 Theorem C19_reload_keeps_enforcing :
-  forall cur files,
-    (reloads_pol cur files = cur \/ exists f, In f files /\ load f = Some (reloads_pol cur files)) /\
-    (forall f, load f = None -> reload_pol cur f = cur) /\
-    (forall f p, load f = Some p -> reload_pol cur f = p).
-Proof.
-  intros cur files. split; [exact (reloads_in_force files cur)|].
-  split; [exact (reload_failed_same cur)|exact (reload_ok_new cur)].
-Qed.
+  forall ifaces cur files,
+    (reloads_pol ifaces cur files = cur \/ exists f, In f files /\ load ifaces f = Some (reloads_pol ifaces cur files)) /\
+    (forall f, load ifaces f = None -> reload_pol ifaces cur f = cur) /\
+    (forall f p, load ifaces f = Some p -> reload_pol ifaces cur f = p).
+Proof. exact reload_keeps_enforcing. Qed.
 Print Assumptions C19_reload_keeps_enforcing.
 
 (* the pattern matcher of the model (derivatives) is the search semantics of Regexp.MatchString on
